@@ -63,6 +63,22 @@ func (m *RWMutex) RUnlock() {
 	vrt.Progress()
 	vrt.ReleasePoint("RWMutex.RUnlock")
 }
+func (m *RWMutex) TryLock() bool {
+	vrt.Op(nil, 0, "RWMutex.TryLock")
+	if m.writer || m.readers > 0 {
+		return false
+	}
+	m.writer = true
+	return true
+}
+func (m *RWMutex) TryRLock() bool {
+	vrt.Op(nil, 0, "RWMutex.TryRLock")
+	if m.writer {
+		return false
+	}
+	m.readers++
+	return true
+}
 func (m *RWMutex) RLocker() Locker { return (*rlocker)(m) }
 
 type rlocker RWMutex
@@ -70,9 +86,18 @@ type rlocker RWMutex
 func (r *rlocker) Lock()   { (*RWMutex)(r).RLock() }
 func (r *rlocker) Unlock() { (*RWMutex)(r).RUnlock() }
 
-type WaitGroup struct{ n int }
+type WaitGroup struct {
+	n       int
+	waiting int // threads inside Wait (blocked, or released but not yet resumed)
+}
 
 func (w *WaitGroup) Add(d int) {
+	// "calls with a positive delta that occur when the counter is zero must happen before a Wait" (package sync):
+	// the real WaitGroup panics ("WaitGroup is reused before previous Wait has returned" / "Add called concurrently
+	// with Wait") when it notices; here the misuse is noticed on every schedule that contains it
+	if d > 0 && w.n == 0 && w.waiting > 0 && !vrt.Aborting() {
+		panic("sync: WaitGroup misuse: Add called concurrently with Wait (counter was zero and a Wait has not returned yet)")
+	}
 	w.n += d
 	if w.n < 0 && !vrt.Aborting() {
 		panic("sync: negative WaitGroup counter")
@@ -81,7 +106,9 @@ func (w *WaitGroup) Add(d int) {
 }
 func (w *WaitGroup) Done() { w.Add(-1) }
 func (w *WaitGroup) Wait() {
+	w.waiting++
 	vrt.Op(func() bool { return w.n <= 0 }, 0, "WaitGroup.Wait")
+	w.waiting--
 }
 func (w *WaitGroup) Go(f func()) {
 	w.Add(1)
